@@ -13,8 +13,10 @@ If the per-attempt timeout is smaller than ``lat`` the attempt ends after ``time
 DEADLINE_EXCEEDED, as a real channel would.
 """
 import asyncio
+import json
 
 import grpc
+from google.protobuf import json_format
 from grpc import aio
 
 from .simclock import CLOCK, EPOCH, CURRENT_OP
@@ -33,6 +35,7 @@ class Sim:
         self.history = []
         self.max_events = 10_000
         self.attempt_no = {}
+        self.numeric_enums = False
 
     def ev(self, k_, **kw):
         if len(self.history) >= self.max_events:
@@ -42,7 +45,7 @@ class Sim:
         self.history.append(e)
         return e
 
-    def attempt(self, path, arity, reqs, metadata, timeout, channel_id, transport="grpc"):
+    def attempt(self, path, arity, reqs, metadata, timeout, channel_id, transport="grpc", extra=None):
         op = CURRENT_OP.get()
         n = self.attempt_no.get(op, 0) + 1
         self.attempt_no[op] = n
@@ -53,13 +56,28 @@ class Sim:
             md.append([k, v.hex() if isinstance(v, bytes) else v])
         call = {"op": op, "n": n, "path": path, "arity": arity, "reqs": [r.hex() for r in reqs],
                 "md": md, "timeout": timeout, "ch": channel_id, "tr": transport}
+        if extra:
+            call.update(extra)
         self.ev("attempt", **call)
-        out = self.server(call)
+        out = dict(self.server(call))
+        # servers answer with dynamic messages; the transport flavour decides the encoding
+        if "msg" in out:
+            msg = out.pop("msg")
+            out["reply"] = msg.SerializeToString(deterministic=True)
+            if transport == "rest":
+                out["json"] = json_format.MessageToJson(msg, use_integers_for_enums=self.numeric_enums)
+        if "msgs" in out:
+            msgs = out.pop("msgs")
+            out["items"] = [x.SerializeToString(deterministic=True) for x in msgs]
+            if transport == "rest":
+                cut = out.get("cut")
+                arr = msgs[:cut["after"]] if cut else msgs
+                out["json"] = json.dumps([json.loads(json_format.MessageToJson(x, use_integers_for_enums=self.numeric_enums))
+                                          for x in arr], ensure_ascii=False)
         self.ev("server", op=op, n=n, lat=out.get("lat", 0.0), code=out.get("code"),
                 reply=(out["reply"].hex() if out.get("reply") is not None else None),
                 items=[i.hex() for i in out.get("items", [])] if "items" in out else None,
                 cut=out.get("cut"))
-        out = dict(out)
         out["_op"], out["_n"] = op, n
         return out
 
